@@ -89,6 +89,18 @@ CHECKS = {
         note='format side-cars (.aux.xml/.msk/.ovr) whitelisted; GDAL truncation on open(w) trusted.',
         technique='Coq proof over a file-protocol model regenerated from source + history-based correspondence',
         design='5/C10'),
+    'C15': dict(
+        text='Theorems (Coq, every band count, selection, metadata; greedy matcher generic in the distance type): equal lengths; matched '
+             'source bands are a subsequence of the selection (all of it unless forced); reference bands come from the reference selection and '
+             'none is used twice for a duplicate-free selection; the greedy loop is one-to-one and only stops when no pair with a distance '
+             'is left; wavelength pairs are within tolerance, file-order pairs lack a wavelength on one side; selected bands exist and are '
+             'neither alpha nor mask bands. Tie: Bands.Match.match_pair_bands (binary64 distances, NumPy argmin tie rules) evaluated in Coq '
+             'against the real _match_pair_bands on 700 seeded metadata configurations (exact tuples / error classes), 10 % also through '
+             'real files and RasterFuse; an independent clause-by-clause oracle on the implementation answers.',
+        note='partial: "distinct nearest gets nearest / file-order invariance" is exercised (correspondence + example), not proved. Domain: '
+             'wavelengths finite and > 0. Known finding D9 (duplicate user reference selection) reported as KNOWN-FINDING.',
+        technique='Coq proof (induction on the greedy loop, list lemmas) + in-Coq correspondence (PrimFloat) with the real band matcher',
+        design='5/C15'),
     'C16': dict(
         text='Theorems (Coq, rational geometry, unbounded): the covers_bounds decision is true iff the source footprint lies inside the '
              'reference footprint on all four sides (right/bottom to within the 1e-6 px float slack); containment / same grid is '
